@@ -602,7 +602,7 @@ func run(c *mon.Ctx) {
 	c.Assume("a fixed-size field (PCR, OPCR, splice_countdown) that was just made present has no 'last value set': the model adopts the bytes the library left there; private data / extension are created empty; the source of SetAdaptationField is a well-formed adaptation field of length >= 1")
 	c.Floor("refused_and_unchanged", 1000)
 	c.Floor("capacity_exact_success", 1000)
-	c.Stream("histories", c.N(30000, 1000000), func(i int, r *gen.Rand) {
+	c.Stream("histories", c.N(30000, 20000000), func(i int, r *gen.Rand) {
 		x := newRunner(c, initialState(r))
 		n := 1 + r.Intn(25)
 		for k := 0; k < n && !x.dead; k++ {
@@ -610,7 +610,7 @@ func run(c *mon.Ctx) {
 		}
 		x.finish()
 	})
-	depth := c.N(3, 4)
+	depth := c.N(3, 5)
 	total := 1
 	for i := 0; i < depth; i++ {
 		total *= alphabet
